@@ -123,9 +123,14 @@ Section Alg.
   Definition dummy_struct : struct := Node KTuple [].
 
   (* ---------- declared structures (in_structure(), out_structure()) ---------- *)
+  (* classes decorated @square (directly or through @symmetric/@diagonal/@orthogonal):
+     out_structure IS in_structure, whatever mv returns (checked against the package by the
+     regenerated tag table of C08) *)
+  Definition square_cls (c : cls) : bool :=
+    match c with CQURotation | CHWP | CDiagonal | CToeplitz => true | _ => false end.
   Fixpoint structs (e : op) : struct * struct :=
     match e with
-    | Prim _ _ si so _ => (si, so)
+    | Prim _ c si so _ => if square_cls c then (si, si) else (si, so)
     | Wrap _ _ x => let '(i, o) := structs x in (o, i)
     | Ident _ s => (s, s)
     | Homoth _ _ s => (s, s)
